@@ -87,6 +87,14 @@ def gen_world(seed, classes=ALL_CLASSES, want_constraints=0.3, node_p=0.25, tag=
                                flower_p=0.3 if flow_decomp else 0.45, zero_petal_p=zp)
         while len(g["routes"]) > 3 or len(g["edges"]) > 7:
             g = gen.digraph_cyclic(rng, max_nodes=5, max_edges=6, max_routes=2, wmax=3, float_w=float_w, flower_p=0.0)
+        rv = random.Random(H(seed, tag, "cyclic-variant"))
+        r_ = rv.random()
+        if r_ < 0.15:
+            g = gen.dag_with_selfloops(rv, float_w=float_w)           # the only cycles are self-loops, taken 1-3 times
+        elif r_ < 0.4:
+            # the walk models accept any digraph, also an acyclic one (bubbles, bridges, bow-ties)
+            g = gen.dag_bowtie(rv, float_w=float_w) if rv.random() < 0.4 else gen.dag_layered(rv, max_nodes=6, max_edges=8, max_routes=3, float_w=float_w)
+            g = dict(g, kind="digraph")
     if g.get("routes") is None:
         # bow-tie graphs carry no generating routes: derive some by peeling for constraints
         g = dict(g)
@@ -117,6 +125,14 @@ def gen_world(seed, classes=ALL_CLASSES, want_constraints=0.3, node_p=0.25, tag=
             # a node without the attribute (treated as ignored)
             i = rng.randrange(len(ng["node_weights"]))
             ng["node_weights"][i][1] = None
+        rz = random.Random(H(seed, tag, "zero-node"))
+        if flow_decomp and rz.random() < 0.15 and len(ng["nodes"]) > 2:
+            # a node whose flow value is 0 although routes pass through it (node weights need not be conserved): it is
+            # not ignored, so nothing with positive weight may traverse it
+            i = rz.randrange(len(ng["node_weights"]))
+            if ng["node_weights"][i][1] is not None:
+                ng["node_weights"][i][1] = 0
+                ng["routes"], ng["weights"] = None, None          # the generating routes are no witness any more
     elif cover:
         graph = dict(g)
         graph["edges"] = [[u, v, 1] for u, v, _ in g["edges"]]
